@@ -208,10 +208,12 @@ def nilsafeState (T : LexTables) (s : LState) (rest : List Char) : Step :=
 
 /-! ### identifiers and `not in` -/
 
-/-- the space-skipping loop of `acceptWord`: `r := l.peek(); for ; r == ' '; r = l.peek() { l.next() }` -/
-def skipSpaces : LState → List Char → LState × List Char
+/-- the space-skipping loop of `acceptWord`: `r := l.peek(); for ; r == ' '; r = l.peek() { l.next() }`
+(`cc.wordBlank`: `r == ' '` or `IsSpace(r)`, whichever the source has) -/
+def skipSpaces (cc : CharClass) : LState → List Char → LState × List Char
   | s, [] => (peek s []).2
-  | s, c :: cs => if c = ' ' then skipSpaces ((peek s (c :: cs)).2.1.adv c) cs else (peek s (c :: cs)).2
+  | s, c :: cs =>
+    if cc.wordBlank c = true then skipSpaces cc ((peek s (c :: cs)).2.1.adv c) cs else (peek s (c :: cs)).2
 
 /-- `for _, ch := range word { if l.next() != ch { … return false } }` -/
 def matchWord : List Char → LState → List Char → Option (LState × List Char)
@@ -220,10 +222,10 @@ def matchWord : List Char → LState → List Char → Option (LState × List Ch
   | ch :: w, s, c :: cs => if c = ch then matchWord w (s.adv c) cs else none
 
 /-- `acceptWord(word)`; on failure `(end, loc, prev)` are restored -/
-def acceptWord (word : List Char) (s : LState) (rest : List Char) : Bool × LState × List Char :=
+def acceptWord (cc : CharClass) (word : List Char) (s : LState) (rest : List Char) : Bool × LState × List Char :=
   let restore (cur : LState) : Bool × LState × List Char :=
     (false, { cur with word := s.word, loc := s.loc, prev := s.prev }, rest)
-  let (s1, r1) := skipSpaces s rest
+  let (s1, r1) := skipSpaces cc s rest
   match matchWord word s1 r1 with
   | none =>
     -- the state at the failing `next()`: only `width` of it survives the restore
@@ -231,12 +233,13 @@ def acceptWord (word : List Char) (s : LState) (rest : List Char) : Bool × LSta
   | some (s2, r2) =>
     let (p, s3, r3) := peek s2 r2
     match p with
-    | some c => if c ≠ ' ' then restore s3 else (true, s3, r3)
+    -- `r != ' ' && r != eof` or `IsAlphaNumeric(r)`, whichever the source has
+    | some c => if cc.wordEnd c = true then (true, s3, r3) else restore s3
     | none => (true, s3, r3)
 
 /-- state `not` -/
-def notState (T : LexTables) (s : LState) (rest : List Char) : Step :=
-  match acceptWord T.inWord.toList s rest with
+def notState (cc : CharClass) (T : LexTables) (s : LState) (rest : List Char) : Step :=
+  match acceptWord cc T.inWord.toList s rest with
   | (true, s1, r1) => emitValue .operator "not in".toList s1 r1
   | (false, s1, r1) => emitValue .operator "not".toList s1 r1
 
@@ -244,7 +247,7 @@ def notState (T : LexTables) (s : LState) (rest : List Char) : Step :=
 def identifierState (cc : CharClass) (T : LexTables) (s : LState) (rest : List Char) : Step :=
   let (s, rest) := acceptRunP cc.isAlphaNumeric s rest
   let w := String.ofList s.text
-  if w = T.notWord then notState T s rest
+  if w = T.notWord then notState cc T s rest
   else if T.kwOps.contains w then emit .operator s rest
   else emit .identifier s rest
 
